@@ -1,2 +1,3 @@
 import Generated.SettingsTable
 import Generated.Sites
+import Generated.Builtins
